@@ -389,3 +389,8 @@ def check(rep, tier, replay=None):
                     rep.violation(Finding("L5", s.qname, "accept",
                                           "step accepted (`return %s`) under `%s`; acceptance must be dominated by %s > c with a constant c >= 0 "
                                           "(a NaN or negative gain ratio must reject)" % (A.show(e), guard_txt, pname), f, l))
+
+    # minimize scales the trust region with colwise_norm(J) (dense and sparse Jacobians): shared rule N5 of C10
+    import c10
+    rep.rule("N5", "colwise_norm: sparse branch visits every outer vector, indexes by the iterator's column, squares, takes the root; dense branch is colwise().norm()", minimum=3)
+    c10.check_n5(rep, fe.ast_dumps(["colwise_norm"]))
